@@ -272,6 +272,128 @@ theorem C16_restore_malformed_example :
     isUsed (run C16ex.cfg C16w24.r C16w24.resume) 5 = true := by
   decide
 
+/-! ## the restore monitor is a theorem of the model (`VIOL sig=C16 restore_inconsistent@restore_p`) -/
+
+/-- every entry of the specified store is one of the restored packets, under its own id -/
+theorem mem_foldl_specStep (cfg : Cfg) (ps : List Pkt) (acc : List (Nat × Pkt)) (x : Nat × Pkt)
+    (h : x ∈ ps.foldl (specStep cfg) acc) : x ∈ acc ∨ x.2 ∈ ps := by
+  induction ps generalizing acc with
+  | nil => exact .inl h
+  | cons p rest ih =>
+    rcases ih _ h with h' | h'
+    · unfold specStep at h'
+      split at h'
+      · rcases List.mem_append.1 h' with h'' | h''
+        · exact .inl h''
+        · simp only [List.mem_singleton] at h''
+          subst h''
+          exact .inr (by simp)
+      · exact .inl h'
+    · exact .inr (List.mem_cons_of_mem _ h')
+
+/-- the packets an exported session contains (`GenericStorePacket`): QoS 1 / QoS 2 PUBLISH and
+    PUBREL; a QoS 0 PUBLISH is tolerated (it is skipped) -/
+def RestorablePkt (p : Pkt) : Prop :=
+  (p.kind = .publish ∧ p.qos ≤ 2) ∨ p.kind = .pubrel
+
+/-- **C16, `restore_packets` leaves a consistent object** — in the exact shape of the driver
+    monitor `VIOL sig=C16 restore_inconsistent@restore_p`.  Restoring ANY list of restorable
+    packets (duplicate ids, id 0 / absent / out of range included) into an object without session
+    state (`RI` with an empty store: no identifier in use; the QoS wait sets empty — e.g. a new
+    object, with any restored handled set): afterwards `pid_puback` / `pid_pubrec` / `pid_pubcomp`
+    are, as sets, the ids of the stored QoS 1 PUBLISH / QoS 2 PUBLISH / PUBREL entries, every
+    stored id is in use, and the stored ids are pairwise distinct; no panic. -/
+theorem C16_monitor_restore_consistent (cfg : Cfg) (s : St) (ps : List Pkt)
+    (hri : RI cfg s) (hst : s.store = []) (hpa : s.puback = []) (hpr : s.pubrec = []) (hpc : s.pubcomp = [])
+    (hps : ∀ p ∈ ps, RestorablePkt p) :
+    let r := (step cfg s (.restorePackets ps)).s
+    (∀ x, x ∈ r.puback ↔ ∃ p, (x, p) ∈ r.store ∧ p.kind = .publish ∧ p.qos = 1) ∧
+    (∀ x, x ∈ r.pubrec ↔ ∃ p, (x, p) ∈ r.store ∧ p.kind = .publish ∧ p.qos = 2) ∧
+    (∀ x, x ∈ r.pubcomp ↔ ∃ p, (x, p) ∈ r.store ∧ p.kind = .pubrel) ∧
+    (∀ e ∈ r.store, isUsed r e.1 = true) ∧
+    (r.store.map (·.1)).Nodup ∧
+    r.panic = s.panic := by
+  have hw : WI s := ⟨by simp [hst, hpa], by simp [hst, hpr], by simp [hst, hpc]⟩
+  obtain ⟨_, _, h3, h4, h5, _⟩ := restorePackets_spec (cfg := cfg) ps (c := ⟨cfg, s, []⟩) hri hw
+  have hmem : ∀ x p, (x, p) ∈ (restorePackets ⟨cfg, s, []⟩ ps).s.store → p ∈ ps ∧ restoreSkip p = false := by
+    intro x p hm
+    have hin : p ∈ ps := by
+      rw [h5] at hm
+      rcases mem_foldl_specStep cfg ps _ _ hm with h | h
+      · simp [hst] at h
+      · exact h
+    refine ⟨hin, ?_⟩
+    -- a stored entry was accepted, hence not skipped: its response set contains its id
+    cases hsk : restoreSkip p with
+    | false => rfl
+    | true =>
+      exfalso
+      rw [h5] at hm
+      clear h3 h4 h5
+      have key : ∀ (l : List Pkt) (acc : List (Nat × Pkt)), (∀ e ∈ acc, restoreSkip e.2 = false) →
+          ∀ e ∈ l.foldl (specStep cfg) acc, restoreSkip e.2 = false := by
+        intro l
+        induction l with
+        | nil => intro acc ha e he; exact ha e he
+        | cons q rest ih =>
+          intro acc ha e he
+          refine ih _ ?_ e he
+          intro e' he'
+          unfold specStep at he'
+          split at he'
+          · rename_i hacc
+            rcases List.mem_append.1 he' with h | h
+            · exact ha e' h
+            · simp only [List.mem_singleton] at h; subst h; exact hacc.1
+          · exact ha e' he'
+      have := key ps s.store (by simp [hst]) (x, p) hm
+      simp [hsk] at this
+  have resp : ∀ x p, (x, p) ∈ (restorePackets ⟨cfg, s, []⟩ ps).s.store →
+      ((respOf p = .puback ↔ (p.kind = .publish ∧ p.qos = 1)) ∧
+       (respOf p = .pubrec ↔ (p.kind = .publish ∧ p.qos = 2)) ∧
+       (respOf p = .pubcomp ↔ p.kind = .pubrel)) := by
+    intro x p hm
+    obtain ⟨hin, hsk⟩ := hmem x p hm
+    have hr := hps p hin
+    simp only [restoreSkip, decide_eq_false_iff_not] at hsk
+    unfold respOf
+    rcases hr with ⟨a, b⟩ | a
+    · have hq : p.qos = 1 ∨ p.qos = 2 := by
+        have : ¬ p.qos = 0 := fun h0 => hsk ⟨a, h0⟩
+        omega
+      rcases hq with hq | hq <;> simp [a, hq]
+    · simp [a]
+  have hstep : (step cfg s (.restorePackets ps)).s = (restorePackets ⟨cfg, s, []⟩ ps).s := rfl
+  dsimp only
+  rw [hstep]
+  refine ⟨?_, ?_, ?_, ?_, h3.nodup, restorePackets_panic _ _⟩
+  · intro x; rw [h4.pa x]
+    constructor
+    · rintro ⟨p, hm, hk⟩; exact ⟨p, hm, (resp x p hm).1.1 hk⟩
+    · rintro ⟨p, hm, hk⟩; exact ⟨p, hm, (resp x p hm).1.2 hk⟩
+  · intro x; rw [h4.pr x]
+    constructor
+    · rintro ⟨p, hm, hk⟩; exact ⟨p, hm, (resp x p hm).2.1.1 hk⟩
+    · rintro ⟨p, hm, hk⟩; exact ⟨p, hm, (resp x p hm).2.1.2 hk⟩
+  · intro x; rw [h4.pc x]
+    constructor
+    · rintro ⟨p, hm, hk⟩; exact ⟨p, hm, (resp x p hm).2.2.1 hk⟩
+    · rintro ⟨p, hm, hk⟩; exact ⟨p, hm, (resp x p hm).2.2.2 hk⟩
+  · intro e he
+    rw [h3.used e.1, storeHas_iff]
+    exact List.mem_map.2 ⟨e, he, rfl⟩
+
+/-- hypotheses of `C16_monitor_restore_consistent`: a new object with a restored handled set, and
+    the malformed export of finding #24 (all its packets are restorable *packets*; what is wrong
+    with it is the combination) -/
+example : RI C16ex.cfg { St.init C16ex.cfg 4 with handled := [4] } ∧
+    (∀ p ∈ C16w24.ps, RestorablePkt p) ∧
+    (step C16ex.cfg { St.init C16ex.cfg 4 with handled := [4] } (.restorePackets C16w24.ps)).s.store.length = 1 := by
+  refine ⟨RI_init C16ex.cfg (by decide) 4 [4], ?_, by decide⟩
+  intro p hp
+  simp only [C16w24.ps, List.mem_cons, List.not_mem_nil, or_false] at hp
+  rcases hp with rfl | rfl | rfl | rfl <;> unfold RestorablePkt <;> decide
+
 /-! ## C16 (2): the restored object continues like the original -/
 
 /-- the second call of the resume handshake on an object in state `t` (first call done):
